@@ -4,7 +4,7 @@ CONSTANTS
   DirOf <- MCDirOf
   ParentOf <- MCParentOf
   RoleOf <- MCRoleOf
-  MaxDefiners = 3
+  MaxDefiners = 4
   Emit <- MCEmitAll
   Levels <- MCLevelsFull
   LevelsB <- MCLevelsSmall
@@ -13,6 +13,9 @@ CONSTANTS
   ExtraSetsB <- MCExtraFew
   UseKinds <- MCUseKinds
   UFiles <- MCUFiles
+  ExtraUsers = FALSE
+  Revs <- MCRevNo
+  OrderMode = "all"
 INIT Init
 NEXT Next
 CHECK_DEADLOCK FALSE
